@@ -1,3 +1,234 @@
-import Sheens.MatchSpec
+import Sheens.MatchSpecC
+import Sheens.Proofs.All
+import Sheens.Props.MatchTotal
+import Sheens.Proofs.CompleteAll
 
-/-! Property C02 — theorems (in progress). -/
+/-!
+# Property C02 — completeness of the pattern matcher
+
+If an assignment `σ` extending the given bindings embeds the pattern into the message (`Emb`), then
+matching succeeds and returns a binding set `r ⊆ σ` that binds every non-optional variable of the
+pattern (hence agrees with `σ` on them): the assignment is among the results.  Extra keys and extra
+array elements of the message never prevent a match (they are simply not mentioned by `Emb`).
+
+Side conditions of the property's quantifier, as explicit predicates:
+`setLike f` (arrays are sets: no duplicate scalar members), `RepeatScalar` (repeated or pre-bound
+variables take scalar values), `OptOnce` (optional variables occur once, not pre-bound),
+`IneqPrebound` (inequality variables are pre-bound), `good` (no string of the message or of a bound
+value begins with '?').  "A value planted under an array variable differs from that array's
+constant members" is built into `Emb.arr`: the variable takes a *left-over* element.
+
+## The statement as first written is false
+
+`match_complete_full` (all of the above, nothing else) has a counter-example
+(`match_complete_full_false`): `Matcher.inequal` tests the relation *before* it looks at the
+plain-named counterpart, whereas `ineqActive` (hence `VarAt`) switches the inequality reading off as
+soon as the counterpart is assigned a non-number.  With `p = "?<x"`, message `5` and
+`bs₀ = σ = {"?<x": 5, "?x": "s"}` the spec reads `?<x` as an ordinary variable (`σ("?<x") = 5`, an
+embedding), the matcher evaluates `5 < 5` and returns no result.  (Variant: `p = "?<=x"`,
+`bs₀ = {"?<=x": 5}`, `σ = bs₀ + {"?x": "s"}`: the relation holds, the matcher binds `?x := 5` and its
+only result is not `⊆ σ`.)
+
+`match_complete_partial` is the theorem with the one extra hypothesis `IneqBaseNum`: the counterpart
+of a numerically pre-bound inequality variable of the pattern is, if `σ` assigns it at all, a number.
+-/
+
+namespace Sheens.C02
+
+/-- the statement as first written (refuted below) -/
+def match_complete_full : Prop :=
+  ∀ (p f : V) (bs₀ σ : Bs),
+    p.plainPat = true → f.good = true → setLike f = true →
+    GoodBs bs₀ → GoodBs σ → Extends bs₀ σ → IneqPrebound p bs₀ →
+    RepeatScalar p bs₀ σ → OptOnce p bs₀ →
+    Emb bs₀ σ p f →
+    ∃ n rs, matchF n p f bs₀ = .ok rs ∧ ∃ r ∈ rs, Extends r σ
+
+/-- the plain-named counterpart of a numerically pre-bound inequality variable of the pattern is,
+    if `σ` assigns it at all, numeric -/
+def IneqBaseNum (p : V) (bs₀ σ : Bs) : Prop :=
+  ∀ v ∈ varsOf p, ∀ op base bv c, ineqOf v = some (op, base) → lookup v bs₀ = some bv →
+    (asNum bv).isSome = true → lookup base σ = some c → (asNum c).isSome = true
+
+/-- Completeness of the matcher (with `IneqBaseNum`). -/
+theorem match_complete_partial (p f : V) (bs₀ σ : Bs)
+    (hp : p.plainPat = true) (hf : f.good = true) (hs : setLike f = true)
+    (hb : GoodBs bs₀) (hσ : GoodBs σ) (hext : Extends bs₀ σ) (hi : IneqPrebound p bs₀)
+    (hrep : RepeatScalar p bs₀ σ) (_hopt : OptOnce p bs₀) (hnum : IneqBaseNum p bs₀ σ)
+    (hemb : Emb bs₀ σ p f) :
+    ∃ n rs, matchF n p f bs₀ = .ok rs ∧ ∃ r ∈ rs, Extends r σ := by
+  obtain ⟨n, rs, h, r, hr, hres⟩ :=
+    Sheens.Complete.complete_gen p f bs₀ σ hp hf hs hb hσ hext hi hrep hnum hemb
+  exact ⟨n, rs, h, r, hr, hres.inv.sub⟩
+
+/-- the returned set binds every non-optional, non-anonymous variable of the pattern (as `σ` does),
+    and extends the given bindings -/
+theorem match_complete_binds (p f : V) (bs₀ σ : Bs)
+    (hp : p.plainPat = true) (hf : f.good = true) (hs : setLike f = true)
+    (hb : GoodBs bs₀) (hσ : GoodBs σ) (hext : Extends bs₀ σ) (hi : IneqPrebound p bs₀)
+    (hrep : RepeatScalar p bs₀ σ) (_hopt : OptOnce p bs₀) (hnum : IneqBaseNum p bs₀ σ)
+    (hemb : Emb bs₀ σ p f) :
+    ∃ n rs, matchF n p f bs₀ = .ok rs ∧ ∃ r ∈ rs, Extends r σ ∧ Extends bs₀ r ∧
+      ∀ v ∈ varsOf p, isOptVar (.str v) = false → isAnon v = false → lookup v r = lookup v σ := by
+  obtain ⟨n, rs, h, r, hr, hres⟩ :=
+    Sheens.Complete.complete_gen p f bs₀ σ hp hf hs hb hσ hext hi hrep hnum hemb
+  refine ⟨n, rs, h, r, hr, hres.inv.sub, hres.ext, ?_⟩
+  intro v hv ho ha
+  cases hl : lookup v r with
+  | none => exact absurd hl (hres.binds v hv ho ha)
+  | some x => exact (hres.inv.sub v x hl).symm
+
+/-! ## the counter-example to `match_complete_full` -/
+
+def cexP : V := .str "?<x"
+def cexF : V := .num 5
+def cexBs : Bs := [("?<x", .num 5), ("?x", .str "s")]
+
+theorem cex_run : matchF 20 cexP cexF cexBs = .ok [] := rfl
+
+theorem cex_none (n : Nat) (rs : List Bs) (h : matchF n cexP cexF cexBs = .ok rs) : rs = [] := by
+  rcases Nat.le_total n 20 with hle | hle
+  · have := Sheens.MatchTotal.matchF_mono_le n 20 _ _ _ _ hle h (by simp)
+    rw [cex_run] at this
+    cases this; rfl
+  · have := Sheens.MatchTotal.matchF_mono_le 20 n _ _ _ _ hle cex_run (by simp)
+    rw [this] at h
+    cases h; rfl
+
+/-- `σ = bs₀` reads `?<x` as an ordinary variable: its counterpart `?x` is not a number -/
+theorem cex_emb : Emb cexBs cexBs cexP cexF :=
+  Emb.var (by decide) (Or.inr (Or.inl ⟨by decide, by decide, rfl⟩))
+
+theorem cex_rep : RepeatScalar cexP cexBs cexBs := by
+  intro v x hl _
+  unfold cexBs at hl
+  simp only [lookup] at hl
+  split at hl
+  · cases hl; rfl
+  · split at hl
+    · cases hl; rfl
+    · cases hl
+
+theorem cex_opt : OptOnce cexP cexBs := by
+  intro v hv ho
+  have : varsOf cexP = ["?<x"] := by decide
+  rw [this] at hv
+  have hv' : v = "?<x" := by simpa using hv
+  subst hv'
+  exact absurd ho (by decide)
+
+theorem match_complete_full_false : ¬ match_complete_full := by
+  intro H
+  obtain ⟨n, rs, h, r, hr, _⟩ := H cexP cexF cexBs cexBs (by decide) (by decide) (by decide)
+    (by decide) (by decide) (Extends.refl _) (by decide) cex_rep cex_opt cex_emb
+  rw [cex_none n rs h] at hr
+  cases hr
+
+/-- the variant: the relation holds, the counterpart gets bound to the message value -/
+example : matchF 20 (.str "?<=x") (.num 5) [("?<=x", .num 5)] =
+    .ok [[("?x", .num 5), ("?<=x", .num 5)]] := rfl
+
+/-! ## Non-vacuity: concrete embeddings -/
+
+/-- every value of `σ` scalar ⇒ `RepeatScalar` -/
+theorem repeatScalar_of_scalars {p : V} {bs₀ σ : Bs} (h : ∀ kv ∈ σ, isScalarV kv.2 = true) :
+    RepeatScalar p bs₀ σ :=
+  fun v x hl _ => h (v, x) (lookup_mem hl)
+
+/-- no optional variable ⇒ `OptOnce` -/
+theorem optOnce_of_noOpt {p : V} {bs₀ : Bs} (h : ∀ v ∈ varsOf p, isOptVar (.str v) = false) :
+    OptOnce p bs₀ := by
+  intro v hv ho
+  rw [h v hv] at ho
+  cases ho
+
+/-- no inequality variable ⇒ `IneqBaseNum` -/
+theorem ineqBaseNum_of_noIneq {p : V} {bs₀ σ : Bs} (h : ∀ v ∈ varsOf p, ineqOf v = none) :
+    IneqBaseNum p bs₀ σ := by
+  intro v hv op base bv c hio
+  rw [h v hv] at hio
+  cases hio
+
+/-- nested array with extra elements: `[[?x, 2], "a"]` in `["a", [3], [1, 2], "b"]`, `?x ↦ 1` -/
+def ex1P : V := .arr [.arr [.str "?x", .num 2], .str "a"]
+def ex1F : V := .arr [.str "a", .arr [.num 3], .arr [.num 1, .num 2], .str "b"]
+def ex1S : Bs := [("?x", .num 1)]
+
+theorem ex1_emb : Emb [] ex1S ex1P ex1F := by
+  refine Emb.arr (vo := none) (xs := [.arr [.str "?x", .num 2], .str "a"])
+    (L := [.arr [.num 3], .str "b"]) rfl ?_ trivial
+  refine ArrEmbX.cons (f := .arr [.num 1, .num 2]) (Pick.there (Pick.there Pick.here)) ?_ ?_
+  · -- the inner array: `2` is matched by `2`, the variable takes the left-over `1`
+    refine Emb.arr (vo := some "?x") (xs := [.num 2]) (L := [.num 1]) rfl ?_ ?_
+    · exact ArrEmbX.cons (Pick.there Pick.here) (Emb.scalar rfl rfl) ArrEmbX.nil
+    · exact Or.inl ⟨.num 1, List.mem_cons_self, Or.inr (Or.inl ⟨by decide, by decide, rfl⟩)⟩
+  · exact ArrEmbX.cons Pick.here (Emb.scalar (by decide) rfl) ArrEmbX.nil
+
+example : ∃ n rs, matchF n ex1P ex1F [] = .ok rs ∧ ∃ r ∈ rs, Extends r ex1S :=
+  match_complete_partial ex1P ex1F [] ex1S (by decide) (by decide) (by decide) (by decide)
+    (by decide) (fun _ _ h => nomatch h) (by decide)
+    (repeatScalar_of_scalars (by decide)) (optOnce_of_noOpt (by decide))
+    (ineqBaseNum_of_noIneq (by decide)) ex1_emb
+
+/-- property variable with a structured value and an extra key:
+    `{"?k": {"n": "?v"}}` in `{"a": 1, "b": {"n": 2, "m": 3}}`, `?k ↦ "b"`, `?v ↦ 2` -/
+def ex2P : V := .obj [("?k", .obj [("n", .str "?v")])]
+def ex2F : V := .obj [("a", .num 1), ("b", .obj [("n", .num 2), ("m", .num 3)])]
+def ex2S : Bs := [("?k", .str "b"), ("?v", .num 2)]
+
+theorem ex2_emb : Emb [] ex2S ex2P ex2F := by
+  refine Emb.objProp (fk := "b") (fv := .obj [("n", .num 2), ("m", .num 3)]) (by decide)
+    (List.mem_cons_of_mem _ List.mem_cons_self)
+    (Or.inr (Or.inl ⟨by decide, by decide, rfl⟩)) ?_
+  refine Emb.obj (by simp) ?_
+  exact ObjEmb.present (fv := .num 2) (by decide) rfl
+    (Emb.var (by decide) (Or.inr (Or.inl ⟨by decide, by decide, rfl⟩))) ObjEmb.nil
+
+example : ∃ n rs, matchF n ex2P ex2F [] = .ok rs ∧ ∃ r ∈ rs, Extends r ex2S :=
+  match_complete_partial ex2P ex2F [] ex2S (by decide) (by decide) (by decide) (by decide)
+    (by decide) (fun _ _ h => nomatch h) (by decide)
+    (repeatScalar_of_scalars (by decide)) (optOnce_of_noOpt (by decide))
+    (ineqBaseNum_of_noIneq (by decide)) ex2_emb
+
+/-- an inequality variable used as documented (`IneqBaseNum` holds non-trivially):
+    `[?<n]` pre-bound to 10 in `[3, 12]`; the counterpart `?n ↦ 3` -/
+def ex3P : V := .arr [.str "?<n"]
+def ex3F : V := .arr [.num 3, .num 12]
+def ex3B : Bs := [("?<n", .num 10)]
+def ex3S : Bs := [("?<n", .num 10), ("?n", .num 3)]
+
+theorem ex3_emb : Emb ex3B ex3S ex3P ex3F := by
+  refine Emb.arr (vo := some "?<n") (xs := []) (L := [.num 3, .num 12]) rfl ArrEmbX.nil ?_
+  refine Or.inl ⟨.num 3, List.mem_cons_self, Or.inr (Or.inr ?_)⟩
+  exact ⟨.lt, "?n", .num 10, 10, 3, .num 3, by decide, rfl, rfl, rfl, by decide, rfl, rfl⟩
+
+theorem ex3_num : IneqBaseNum ex3P ex3B ex3S := by
+  intro v hv op base bv c hio _ _ hc
+  have hvars : varsOf ex3P = ["?<n"] := by decide
+  rw [hvars] at hv
+  have hv' : v = "?<n" := by simpa using hv
+  subst hv'
+  have : ineqOf "?<n" = some (.lt, "?n") := by decide
+  rw [this] at hio
+  cases hio
+  have hc' : lookup "?n" ex3S = some (.num 3) := rfl
+  rw [hc'] at hc
+  cases hc
+  rfl
+
+example : ∃ n rs, matchF n ex3P ex3F ex3B = .ok rs ∧ ∃ r ∈ rs, Extends r ex3S :=
+  match_complete_partial ex3P ex3F ex3B ex3S (by decide) (by decide) (by decide) (by decide)
+    (by decide) (by
+      intro k v h
+      unfold ex3B at h
+      simp only [lookup] at h
+      split at h
+      · next hk => cases h; subst hk; rfl
+      · cases h) (by decide)
+    (repeatScalar_of_scalars (by decide)) (optOnce_of_noOpt (by decide)) ex3_num ex3_emb
+
+end Sheens.C02
+
+#print axioms Sheens.C02.match_complete_partial
+#print axioms Sheens.C02.match_complete_binds
+#print axioms Sheens.C02.match_complete_full_false
